@@ -19,11 +19,11 @@
  "name": "mmp_ro",
  "props": ["C13"],
  "level": "P",
- "tier": "wip",
+ "tier": "quick",
  "harness": "h_mmp_ro",
  "sources": ["lib/ext2fs/io_manager.c"],
- "unwind": 2,
- "unwind_reason": "the only loops (ext2fs_mmp_new_seq's rand() loops) are behind the EXT2_FLAG_RW test and unreachable for the enumerated read-only flag values: the unwinding assertions prove that",
+ "unwind": 33,
+ "unwind_reason": "on the tree no loop is reachable: the only loops (ext2fs_mmp_new_seq's rand() loops <= 31, strncpy of the 32-byte mmp_bdevname) are behind the EXT2_FLAG_RW test; the bound 33 only lets a mutant that removes the test run through to the write events",
  "cbmc_flags": ["--object-bits", "10"],
  "functions": ["lib/ext2fs/mmp.c:ext2fs_mmp_start", "lib/ext2fs/mmp.c:ext2fs_mmp_stop", "lib/ext2fs/mmp.c:ext2fs_mmp_update2", "lib/ext2fs/mmp.c:ext2fs_mmp_update", "lib/ext2fs/mmp.c:ext2fs_mmp_clear", "lib/ext2fs/mmp.c:ext2fs_mmp_read"],
  "assumes": ["ENUMERATED fs->flags (one call site each so that symbolic execution decides the EXT2_FLAG_RW tests): 0, EXT2_FLAG_EXCLUSIVE, EXT2_FLAG_SKIP_MMP, EXT2_FLAG_IGNORE_CSUM_ERRORS, every bit except EXT2_FLAG_RW",
@@ -86,8 +86,12 @@ int stat(const char *path, struct stat *st) { st->st_mode = (unsigned) ro_choice
 ssize_t read(int fd, void *buf, size_t count)
 {
 	g_reads++;
-	if (count == 1024)
-		memcpy(buf, (g_reads & 1) ? IN.mmp : IN.mmp2, 1024);
+	if (count == 1024) {
+		if (g_reads == 1)
+			memcpy(buf, IN.mmp, 1024);
+		else
+			memcpy(buf, IN.mmp2, 1024);
+	}
 	return (ssize_t)(long) ro_choice();
 }
 int close(int fd) { g_closes++; return 0; }
@@ -107,6 +111,11 @@ errcode_t ext2fs_get_memalign(unsigned long size, unsigned long align, void *ptr
 int ext2fs_mmp_csum_verify(ext2_filsys fs, struct mmp_struct *mmp) { return (int)(ro_choice() & 1); }
 errcode_t ext2fs_mmp_csum_set(ext2_filsys fs, struct mmp_struct *mmp) { g_csum_set++; RO_EV_FORBIDDEN(1, "ext2fs_mmp_csum_set (MMP block about to be written)"); return 0; }
 blk64_t ext2fs_blocks_count(struct ext2_super_block *super) { return ro_choice(); }
+/* ext2fs_mmp_new_seq()'s callees: only reached when a new sequence number is about to be WRITTEN */
+long random(void) { RO_EV_FORBIDDEN(1, "random (new MMP sequence number)"); return 0; }
+void srandom(unsigned int seed) { }
+pid_t getpid(void) { return 1; }
+uid_t getuid(void) { return 0; }
 
 static void build(void)
 {
@@ -174,7 +183,7 @@ void h_mmp_ro(void)
 	if (IN.which == 4)
 		CHECK(r == EXT2_ET_RO_FILSYS && g_reads == 0, "read-only ext2fs_mmp_clear refuses with EXT2_ET_RO_FILSYS");
 	if (IN.which == 0) {
-		CHECK(g_opens <= 1 && g_reads <= 2, "read-only ext2fs_mmp_start: at most one O_RDONLY open and two reads");
+		CHECK(g_opens <= 2 && g_reads <= 2, "read-only ext2fs_mmp_start: at most two reads (each through an O_RDONLY descriptor)");
 		if (r == 0) {
 			CHECK(g_reads >= 1, "read-only ext2fs_mmp_start succeeds only after reading the block");
 			REACH("start-ok");
